@@ -2,7 +2,7 @@
 //! After EVERY event: both sides equal the map (best-first, no duplicate prices), sequence, mid / volume-weighted mid price, and
 //! `snapshot(depth)` for every depth 0..=len+2 returns the best N levels of each side (the books are asymmetric in general).
 use crate::report;
-use barter_data::{books::{Level, OrderBook, manager::OrderBookL2Manager, map::{OrderBookMap, OrderBookMapMulti}}, event::MarketEvent, streams::reconnect::Event, subscription::book::OrderBookEvent};
+use barter_data::{books::{Level, OrderBook, manager::OrderBookL2Manager, map::{OrderBookMap, OrderBookMapMulti, OrderBookMapSingle}}, event::MarketEvent, streams::reconnect::Event, subscription::book::OrderBookEvent};
 use barter_instrument::exchange::ExchangeId;
 use futures::StreamExt;
 use std::{cell::RefCell, rc::Rc, sync::Arc};
@@ -126,6 +126,42 @@ fn run_manager_seq(events: &[MEv], seen: &mut HashSet<&'static str>) {
     }
 }
 
+fn run_manager_single_seq(events: &[MEv], seen: &mut HashSet<&'static str>) {
+    let keys = [11u32];
+    let books = OrderBookMapSingle::new(11u32, Arc::new(Default::default()));
+    let models: Rc<RefCell<[Model; 2]>> = Rc::new(RefCell::new([(BTreeMap::new(), BTreeMap::new(), 0), (BTreeMap::new(), BTreeMap::new(), 0)]));
+    let fails: Rc<RefCell<Vec<(usize, Fail)>>> = Rc::new(RefCell::new(vec![]));
+    let settle = { let (books, models, fails) = (books.clone(), models.clone(), fails.clone()); move |upto: usize| {
+        if !fails.borrow().is_empty() { return; }
+        for (j, k) in keys.iter().enumerate() {
+            let book = books.find(k).unwrap().read().clone();
+            for f in check(&book, &models.borrow()[j]) { fails.borrow_mut().push((upto, f)); }
+        }
+    } };
+    let items: Vec<(usize, Event<ExchangeId, MarketEvent<u32, OrderBookEvent>>)> = events.iter().enumerate().map(|(n, (inst, snapshot, seq, bids, asks))| {
+        if *inst == 9 { return (n, Event::Reconnecting(ExchangeId::BinanceSpot)); }
+        let ob = OrderBook::new(*seq, None, levels(bids), levels(asks));
+        let kind = if *snapshot { OrderBookEvent::Snapshot(ob) } else { OrderBookEvent::Update(ob) };
+        let t = chrono::DateTime::<chrono::Utc>::from_timestamp(1_700_000_000 + n as i64, 0).unwrap();
+        (n, Event::Item(MarketEvent { time_exchange: t, time_received: t, exchange: ExchangeId::BinanceSpot, instrument: match inst { 0 => 11u32, 1 => 22, _ => 33 }, kind }))
+    }).collect();
+    let stream = futures::stream::iter(items).map({ let (models, settle, evs) = (models.clone(), settle.clone(), events.to_vec()); move |(n, item)| {
+        settle(n);
+        let (inst, snapshot, seq, bids, asks) = &evs[n];
+        if *inst < 1 { apply_model(&mut models.borrow_mut()[*inst], *snapshot, *seq, bids, asks); }
+        item
+    } });
+    futures::executor::block_on(OrderBookL2Manager { stream: Box::pin(stream), books: books.clone() }.run());
+    settle(events.len());
+    if let Some((upto, (label, obs, exp))) = fails.borrow().first().cloned() {
+        let label: &'static str = match label { "C05.bounded.bids_equal_map" | "C05.bounded.asks_equal_map" | "C05.bounded.sequence_of_last_event" => "C05.bounded.managed_book_equals_map_after_every_event", l => l };
+        if seen.insert(label) {
+            let show = |e: &MEv| if e.0 == 9 { "Reconnecting".to_string() } else { format!("{}(instrument {}, seq={}, bids={:?}, asks={:?})", if e.1 { "Snapshot" } else { "Update" }, ["A", "B", "not-configured"][e.0.min(2)], e.2, e.3, e.4) };
+            report(label, format!("through OrderBookL2Manager::run over an OrderBookMapSingle for instrument A only (B and the third instrument are NOT configured); stream: {}; checked after {} item(s)", events.iter().map(show).collect::<Vec<_>>().join(" ; "), upto), obs, exp);
+        }
+    }
+}
+
 pub fn run(seed: u64, thorough: bool) -> u64 {
     let mut seen = HashSet::new();
     let mut n = 0u64;
@@ -222,7 +258,7 @@ pub fn run(seed: u64, thorough: bool) -> u64 {
             // updates before any snapshot
             vec![up(0, 5, vec![(5, 1)], vec![(6, 1)]), up(0, 2, vec![(5, 0), (4, 1)], vec![]), sn(0, 1, vec![(9, 1)], vec![(10, 1)]), up(0, 1, vec![(9, 2)], vec![])],
         ];
-        for c in &crafted { run_manager_seq(c, &mut seen); n += 1; }
+        for c in &crafted { run_manager_seq(c, &mut seen); run_manager_single_seq(c, &mut seen); n += 2; }
         let mut rng = Rng(0xA0761D6478BD642F ^ seed.wrapping_mul(0xE7037ED1A0B428DB) | 1);
         for _ in 0..(if thorough { 30_000 } else { 3_000 }) {
             let len = 2 + rng.below(8) as usize;
@@ -248,6 +284,7 @@ pub fn run(seed: u64, thorough: bool) -> u64 {
                 evs.push((inst, snapshot, seq, b, a));
             }
             run_manager_seq(&evs, &mut seen);
+            run_manager_single_seq(&evs, &mut seen); n += 1;
             n += 1;
         }
     }
